@@ -84,6 +84,12 @@ var c17Hand = []string{
 	// values of more than a megabyte: a print, a section, a capture hand them to the writer like any other
 	"pre{{ huge }}mid{{ huge }}post", "{% filter up %}x{{ huge }}{% endfilter %}y", "{% set c %}{{ huge }}{% endset %}a{{ c }}b",
 	"MUSTFAIL{{ (0 - 1e300)..1e300 }}", "MUSTFAIL{% for i in 0..(10 ** 30) %}x{% endfor %}", "MUSTFAIL{% set r = 1..99999999999999999999 %}", "MUSTFAIL{{ big..nbig }}", "MUSTFAIL{{ 0..'1e300' }}",
+	// a name that evaluates to the empty string is a name like any other: where no template is called "", loading it fails
+	"MUSTFAILNOEMPTY:a{% include '' %}b", "MUSTFAILNOEMPTY:a{% include nosuchvar %}b", "MUSTFAILNOEMPTY:a{% include null %}b", "MUSTFAILNOEMPTY:{% for i in 1..2 %}{{ i }}{% include '' ~ '' %}{% endfor %}",
+	"MUSTFAILNOEMPTY:a{% embed '' %}{% endembed %}b", "MUSTFAILNOEMPTY:{% import '' as L %}x", "MUSTFAILNOEMPTY:{% from '' import lm %}x", "MUSTFAILNOEMPTY:{% use '' %}x", "MUSTFAILNOEMPTY:{% extends '' %}{% block bb %}x{% endblock %}",
+	"MUSTFAILNOEMPTY:a{% include '' with {'w': 1} only %}b", "MUSTFAILNOEMPTY:a{% include false %}b", "MUSTFAILNOEMPTY:{% set c %}{% include '' %}{% endset %}x", "MUSTFAILNOEMPTY:{% filter up %}a{% include '' %}{% endfilter %}",
+	// ... and where one is, it is rendered
+	"a{% include '' %}b{% include nosuchvar %}c", "a{% embed '' %}{% block eb %}E{% endblock %}{% endembed %}b",
 }
 
 func (p *c17) Init(tier string, seed int64) {
@@ -116,6 +122,10 @@ func (p *c17) sources(i int) (map[string]string, string, map[string]stick.Value,
 	case i < len(c17Hand):
 		src := c17Aux()
 		src["main"] = strings.TrimPrefix(c17Hand[i], "MUSTFAIL")
+		if strings.HasPrefix(src["main"], "NOEMPTY:") {
+			src["main"] = strings.TrimPrefix(src["main"], "NOEMPTY:")
+			delete(src, "")
+		}
 		ctx["big"], ctx["nbig"] = uint64(math.MaxUint64), -1e300
 		if strings.Contains(src["main"], "huge") {
 			ctx["huge"] = strings.Repeat("0123456789abcdef", 3<<15+1)
@@ -383,10 +393,16 @@ var c17Carriers = []func(e gen.Expr) gen.Node{
 	func(e gen.Expr) gen.Node { return pr(&gen.EAttr{X: nm("arr"), Key: e}) },
 	func(e gen.Expr) gen.Node { return pr(&gen.EAttr{X: e, Key: num(0)}) },
 	// whatever is asked of null: the question is evaluated first
-	func(e gen.Expr) gen.Node { return pr(&gen.EMethod{X: nm("nul"), Name: "anything", Args: []gen.Expr{e, num(2)}}) },
-	func(e gen.Expr) gen.Node { return pr(&gen.EMethod{X: &gen.EGroup{X: &gen.ENull{}}, Name: "m", Args: []gen.Expr{num(1), e}}) },
+	func(e gen.Expr) gen.Node {
+		return pr(&gen.EMethod{X: nm("nul"), Name: "anything", Args: []gen.Expr{e, num(2)}})
+	},
+	func(e gen.Expr) gen.Node {
+		return pr(&gen.EMethod{X: &gen.EGroup{X: &gen.ENull{}}, Name: "m", Args: []gen.Expr{num(1), e}})
+	},
 	func(e gen.Expr) gen.Node { return pr(&gen.EAttr{X: nm("nul"), Key: e}) },
-	func(e gen.Expr) gen.Node { return pr(&gen.EMethod{X: nm("undefined_thing"), Name: "m", Args: []gen.Expr{e}}) },
+	func(e gen.Expr) gen.Node {
+		return pr(&gen.EMethod{X: nm("undefined_thing"), Name: "m", Args: []gen.Expr{e}})
+	},
 	func(e gen.Expr) gen.Node {
 		return pr(&gen.EMethod{X: nm("obj"), Name: "Add", Args: []gen.Expr{e, num(2)}})
 	},
